@@ -499,3 +499,20 @@ def render(blocks):
 
 def gen_program(rng, size="small", force=()):
     return render(gen_blocks(rng, size, force))
+
+
+def gen_program_parts(rng, size="small"):
+    """The same kind of program split over several local files: main.as includes one
+    part per block.  Returns (main text, {part name: text})."""
+    blocks = gen_blocks(rng, size)
+    parts = {}
+    s = HEADER
+    for i, (kind, d, call) in enumerate(blocks):
+        fn = "part%d.as" % (i + 1)
+        parts[fn] = d
+        s += '#include "%s"\n' % fn
+    s += "\nmain(): () == {\n"
+    for i, (kind, d, call) in enumerate(blocks):
+        s += '\tprint << "@%d " << %s << newline;\n' % (i + 1, call)
+    s += "}\nmain();\n"
+    return s, parts
